@@ -28,6 +28,8 @@ func SendAccountDebitRequest(
 	if err != nil {
 		return nil, err
 	}
+	// the connection serves this request only
+	defer conn.Close()
 
 	meta, ok := smpeer.FromContext(conn.Context())
 	if !ok {
